@@ -285,6 +285,32 @@ fn fill_planes(rng: &mut Rng, w: usize, h: usize, fill: usize) -> (Vec<u8>, Vec<
                 }
             }
         }
+        6 => {
+            // planes constant (chroma mostly neutral) except for one to three samples at the places where
+            // shortcuts and remainders meet: the very first / last few samples, the ends of rows
+            let cy = *rng.pick(&[0u8, 16, 128, 235, 255, 77]);
+            let (cbv, crv) = if rng.chance(2, 3) { (128u8, 128u8) } else { (*rng.pick(&[0u8, 16, 128, 240, 255]), *rng.pick(&[0u8, 16, 128, 240, 255])) };
+            y.iter_mut().for_each(|v| *v = cy);
+            cb.iter_mut().for_each(|v| *v = cbv);
+            cr.iter_mut().for_each(|v| *v = crv);
+            for _ in 0..1 + rng.below(3) {
+                let which = rng.below(3);
+                let (len, roww) = if which == 0 { (w * h, w) } else { (cw * ch, cw) };
+                let back = rng.below(9) as usize;
+                let p = match rng.below(5) {
+                    0 | 1 => len.saturating_sub(1 + back),
+                    2 => back.min(len - 1),
+                    3 => (roww * (1 + rng.below((len / roww) as u64) as usize)).saturating_sub(1 + back % 4).min(len - 1),
+                    _ => rng.below(len as u64) as usize,
+                };
+                let nv = *rng.pick(&[0u8, 255, 1, 254, 90, 200]);
+                match which {
+                    0 => y[p] = nv,
+                    1 => cb[p] = nv,
+                    _ => cr[p] = nv,
+                }
+            }
+        }
         4 => {
             // one plane constant, the others random
             rng.fill(&mut y);
@@ -314,9 +340,14 @@ fn fill_planes(rng: &mut Rng, w: usize, h: usize, fill: usize) -> (Vec<u8>, Vec<
 
 fn c08_image(k: &Coef, rng: &mut Rng, w: usize, h: usize, fill: usize, rep: &mut Report) {
     let (y, cb, cr) = fill_planes(rng, w, h, fill);
+    c08_planes(k, y, cb, cr, w, h, fill, rep);
+}
+
+#[allow(clippy::too_many_arguments)]
+fn c08_planes(k: &Coef, y: Vec<u8>, cb: Vec<u8>, cr: Vec<u8>, w: usize, h: usize, fill: usize, rep: &mut Report) {
     let cw = (w + 1) / 2;
     rep.evaluations += 1;
-    let coords = || J::obj().set("property", "C08").set("kind", "image").set("w", w).set("h", h).set("fill", fill).set("y", crate::util::hex(&y)).set("cb", crate::util::hex(&cb)).set("cr", crate::util::hex(&cr));
+    let coords = || J::obj().set("property", "C08").set("kind", "image").set("w", w).set("h", h).set("fill", fill).set("y", if y.len() <= 65536 { crate::util::hex(&y) } else { String::new() }).set("cb", if y.len() <= 65536 { crate::util::hex(&cb) } else { String::new() }).set("cr", if y.len() <= 65536 { crate::util::hex(&cr) } else { String::new() });
     let out = match catch(|| yuv420_to_rgba(&y, &cb, &cr, w)) {
         Ok(o) => o,
         Err(p) => {
@@ -363,7 +394,7 @@ pub fn run_c08(ctx: &Ctx) -> (Report, String) {
         let mut rng = Rng::new(ctx.seed ^ 0xC08, s as u64);
         crate::mon::guarded(&mut rep, || J::obj().set("property", "C08").set("w", w), |rep| {
             for h in 1..=maxd {
-                for fill in (0..6).filter(|f| !ctx.miri() || *f == h % 6) {
+                for fill in (0..7).filter(|f| !ctx.miri() || *f == h % 7) {
                     c08_image(&k, &mut rng, w, h, fill, rep);
                 }
             }
@@ -397,6 +428,18 @@ pub fn run_c08(ctx: &Ctx) -> (Report, String) {
         for _ in 0..6 {
             extra.push((1000 + rng.below(1600) as usize, 420 + rng.below(700) as usize));
         }
+        // widths and heights around 2^22 .. 2^24 (beyond what a 32-bit float counts exactly); native stages only
+        if ctx.is_main() {
+            extra.extend([(16_777_215, 1), (16_777_217, 1), (16_777_221, 3), (1, 16_777_217), (8_388_609, 1), (4_194_305, 3)]);
+            if ctx.tier == Tier::Thorough {
+                for d in [4_194_303usize, 8_388_607, 16_777_219, 16_777_225] {
+                    extra.push((d, 1));
+                    extra.push((d, 3));
+                    extra.push((1, d));
+                }
+                extra.extend([(33_554_433, 1), (33_554_435, 2), (16_777_225, 4), (5, 16_777_217)]);
+            }
+        }
         if ctx.tier == Tier::Thorough {
             for (w, h) in [(1408, 1152), (1407, 1151), (1409, 3), (705, 577)] {
                 extra.push((w, h));
@@ -406,12 +449,18 @@ pub fn run_c08(ctx: &Ctx) -> (Report, String) {
         extra.push((17, 3));
         extra.push((3, 17));
     }
-    for (w, h) in extra {
-        for fill in [0usize, 3, 5] {
-            c08_image(&k, &mut rng, w, h, fill, &mut rep);
+    let er = par_shards(extra.len(), ctx.threads, |i| {
+        let (w, h) = extra[i];
+        let mut r = Report::new();
+        let mut rng = Rng::new(ctx.seed ^ 0xC08E, i as u64);
+        let fills: &[usize] = if w * h > (1 << 22) { &[0, 6] } else { &[0, 3, 5, 6] };
+        for fill in fills {
+            crate::mon::guarded(&mut r, || J::obj().set("property", "C08").set("kind", "image").set("w", w).set("h", h).set("fill", *fill), |r| c08_image(&k, &mut rng, w, h, *fill, r));
         }
-        rep.count("strips_and_formats");
-    }
+        r.count("strips_and_formats");
+        r
+    });
+    rep.merge(Report::merge_all(er));
     // the empty picture: documented shortcut; width 0 is the documented companion value
     match catch(|| yuv420_to_rgba(&[], &[], &[], 0)) {
         Ok(o) if o.is_empty() => rep.count("empty_picture_ok"),
@@ -422,7 +471,7 @@ pub fn run_c08(ctx: &Ctx) -> (Report, String) {
     rep.sample(4, || J::obj().set("sizes", format!("every (w,h) in 1..={} x 1..={}", maxd, maxd)).set("fills", "0 = uniform random, 1 = position-unique ramp (a shifted index changes the colour), 2 = extremes"));
     rep.exhaustive = Some(false);
     if ctx.is_main() && ctx.scale_pct == 100 {
-        rep.require("images_compared", (maxd * maxd * 6) as u64);
+        rep.require("images_compared", (maxd * maxd * 7) as u64);
         rep.require("remainder_path_pixels", 10000);
         rep.require("empty_picture_ok", 1);
     }
@@ -434,6 +483,12 @@ pub fn replay_c08(j: &J, rep: &mut Report) {
     let w = j.get("w").and_then(|v| v.as_i64()).unwrap_or(1) as usize;
     let h = j.get("h").and_then(|v| v.as_i64()).unwrap_or(1) as usize;
     let fill = j.get("fill").and_then(|v| v.as_i64()).unwrap_or(0) as usize;
+    let plane = |n: &str| j.get(n).and_then(|v| v.as_str()).map(crate::util::unhex).unwrap_or_default();
+    let (y, cb, cr) = (plane("y"), plane("cb"), plane("cr"));
+    if y.len() == w * h && w * h > 0 && cb.len() == ((w + 1) / 2) * ((h + 1) / 2) && cr.len() == cb.len() {
+        c08_planes(&k, y, cb, cr, w, h, fill, rep);
+        return;
+    }
     let mut rng = Rng::new(1, 1);
     c08_image(&k, &mut rng, w, h, fill, rep);
 }
